@@ -670,19 +670,55 @@ func (c16) Exec(ctx *core.Ctx, cs *core.Case) {
 				if pr.Value == "" {
 					piece = strings.TrimSuffix(piece, "=")
 				}
+				if pr.Value == "" && pr.Name == "" {
+					// "omits '=' only for empty values" leaves open whether the pair with an empty name AND an
+					// empty value is written as "=" or as nothing (written as nothing it is lost on re-parse,
+					// which is what C17 objects to); both are accepted here
+					piece = "\x00"
+				}
 				pieces = append(pieces, piece)
 			}
 		}); pan != nil {
 			ctx.Violate("skip-equals serialization panics", "", pan.String(), "")
 			return
 		}
-		if want := strings.Join(pieces, "&"); gotS != want {
-			ctx.Violate("skip-equals does not omit '=' exactly for empty parameter values", want, gotS, "")
+		if want := strings.Join(pieces, "&"); !matchSkipEquals(pieces, gotS) {
+			ctx.Violate("skip-equals does not omit '=' exactly for empty parameter values", strings.ReplaceAll(want, "\x00", "[=]"), gotS, "")
 		}
 		if hq := hrefQuery(us.Href(false)); len(cs.Ops) > 0 && hq != gotS {
 			ctx.Violate("skip-equals: the URL's query differs from the list's serialization", gotS, hq, "")
 		}
 	}
+}
+
+// matchSkipEquals: got is the pieces joined by '&', where a piece "\x00" stands for either "" or "=".
+func matchSkipEquals(pieces []string, got string) bool {
+	reach := map[int]bool{0: true}
+	for i, pc := range pieces {
+		next := map[int]bool{}
+		for pos := range reach {
+			if i > 0 {
+				if pos >= len(got) || got[pos] != '&' {
+					continue
+				}
+				pos++
+			}
+			cands := []string{pc}
+			if pc == "\x00" {
+				cands = []string{"", "="}
+			}
+			for _, c := range cands {
+				if strings.HasPrefix(got[pos:], c) {
+					next[pos+len(c)] = true
+				}
+			}
+		}
+		reach = next
+		if len(reach) == 0 {
+			return false
+		}
+	}
+	return reach[len(got)]
 }
 
 func hasOpt(cfg []string, o string) bool {
